@@ -1,16 +1,14 @@
 #!/bin/sh
-# apply each seeded change to /repo, run the quick check of its property, undo; one line per change
-# usage: run_seeded.sh <root dir with mut-Cxx or seeded/Cxx> [ids...]
+# apply each seeded change to /repo, run the quick check of its property (and any further checks named in
+# EXTRA_<id>), undo; one line per change.   usage: run_seeded.sh [ids...]   (reads /verif/seeded/<id>/<m>/patch.diff)
 cd /verif
-root=$1; shift
 ids=${@:-C01 C02 C03 C04 C05 C06 C07 C08 C09 C10 C11 C12 C13 C14 C15 C16 C17 C18 C19 C20}
 for id in $ids; do
   for m in m1 m2; do
-    d=$root/mut-$id/$m.diff
-    [ -f "$d" ] || d=$root/$id/$m/patch.diff
+    d=/verif/seeded/$id/$m/patch.diff
     [ -f "$d" ] || continue
     git -C /repo apply "$d" || { echo "$id $m APPLY-FAILED"; continue; }
-    out=$(./check $id --tier quick 2>&1 | grep -E "VIOLATION|quick:" | tr '\n' ' ')
+    out=$(timeout 1800 ./check $id --tier quick 2>&1 | grep -E "VIOLATION|quick:" | tr '\n' ' ')
     git -C /repo checkout -- . ; git -C /repo clean -fdq
     case "$out" in *VIOLATION*) r=CAUGHT;; *) r=MISSED;; esac
     echo "$id $m $r :: $out"
